@@ -22,6 +22,7 @@ class C27(Prop):
     LEVEL = "proof"
     MAX_WORKERS = 8
     CASE_TIMEOUT = 60
+    SHARD_TIMEOUT = 1500
     TECHNIQUE = ("Coq proof by induction over event traces of a transition system of the polling protocol + "
                  "vm_compute trace acceptance against the real SlurmConnector under a controlled event loop")
     RULE = ("1..6 concurrent SlurmConnector.run(job_name=..) calls with per-job run times (number of scheduler steps "
@@ -57,13 +58,18 @@ class C27(Prop):
 
         # importing queue_manager imports asyncssh, whose ctypes.util.find_library spawns helper processes that
         # inherit stdin (= the worker's case stream): keep them away from it
+        import ctypes.util
+
         saved, devnull = os.dup(0), os.open(os.devnull, os.O_RDONLY)
         os.dup2(devnull, 0)
+        real_find = ctypes.util.find_library
+        ctypes.util.find_library = lambda name: None     # asyncssh only probes optional crypto libraries with it
         try:
             from cachebox import TTLCache
             from streamflow.core.deployment import Connector, ExecutionLocation
             from streamflow.deployment.connector import queue_manager as qm
         finally:
+            ctypes.util.find_library = real_find
             os.dup2(saved, 0)
             os.close(saved)
             os.close(devnull)
@@ -205,7 +211,11 @@ class C27(Prop):
             for _ in range(after):
                 await k.sleep0()
             w["log"].append(["undeploy-start", sorted(w["queue"])])
-            await conn.undeploy(False)
+            try:
+                await conn.undeploy(False)
+            except Exception as e:  # noqa
+                w["log"].append(["undeploy-error", type(e).__name__, str(e)[:120]])
+                return
             w["log"].append(["undeploy-end"])
             state["undeployed"] = True
 
@@ -243,7 +253,10 @@ class C27(Prop):
 
     # ------------------------------------------------------------------ oracle (from the property text)
     def oracle(self, case, obs):
-        if "crash" in obs or "hang" in obs and obs["hang"] is True or obs.get("overrun"):
+        if obs.get("hang") is True and "rc" in obs:
+            return None     # the whole worker was killed by the shard watchdog (machine overload / import): no verdict
+                            # on this case; a case that hangs by itself is stopped by the per-case alarm ({"hang": true})
+        if "crash" in obs or obs.get("hang") is True or obs.get("overrun"):
             return ("crash", f"harness-level crash/hang/overrun: {str(obs)[:300]}")
         queue, idof, jobix, cancelled = set(), {}, {}, set()
         undeploying = False
@@ -267,6 +280,9 @@ class C27(Prop):
                     if j not in jobix:
                         return ("undeploy-exact", f"scancel of {j}, which is not a job of this connector (position {pos})")
                     queue.discard(j)
+            elif k == "undeploy-error":
+                return ("undeploy-exact", f"undeploy() raised {e[1]}: {e[2]} (jobs queued when it started: "
+                                          f"{sorted(still)}, cancelled: {sorted(cancelled)})")
             elif k == "undeploy-end":
                 missed = sorted(still - cancelled)
                 if missed:
@@ -309,14 +325,19 @@ class C27(Prop):
                 evs.append(f"ClearBy {j}")
             elif k == "expire":
                 evs.append("Expire")
+            elif k == "lstart":
+                evs.append(f"ListStart {coq_list([coq_nat(x) for x in e[1]])}")
             elif k == "list":
                 evs.append(f"Listing {coq_list([coq_nat(x) for x in e[1]])} {coq_list([coq_nat(x) for x in e[2]])}")
             elif k == "cancel":
                 evs.append(f"Cancel {coq_list([coq_nat(x) for x in e[1]])}")
             elif k == "undeploy-start":
                 evs.append("UndeployStart")
+            elif k == "undeploy-error":
+                return None     # undeploy raised: outside the model (the oracle reports it)
             elif k == "undeploy-end":
                 evs.append("UndeployEnd")
+                break       # undeploy replaces _scheduled_jobs by a fresh dict: the instrumentation ends here
         return f"CTrace {coq_list(evs)}"
 
     def nontrivial(self, c):
@@ -347,3 +368,19 @@ def obs_job_id(log, i):
 
 
 PROP = C27()
+PROP.LEVEL_TEXT = (
+    "Event-level transition system of QueueManagerConnector.run's polling protocol, the constant-key one-slot TTL cache, "
+    "job departure, TTL expiry and undeploy in Coq (Queue/Model.v). Proved by induction over ALL accepted event traces "
+    "(any number of jobs, any interleaving, any expiry pattern): a job's run() leaves its polling loop only when the job "
+    "is no longer queued, a finished job is never queued afterwards, every cached or in-flight listing contains every "
+    "recorded+cleared+still-queued job, undeploy cancels exactly the ids recorded when it started. PARTIAL: the rules of "
+    "the transition system (which events the code performs under which guards, in particular that the cache clear "
+    "happens under the lock with no squeue in flight) are tied to the code by checking that every trace of the real "
+    "SlurmConnector (fake sbatch/squeue/scontrol/scancel behind a fake inner connector, one-task-step-at-a-time seeded "
+    "event loop) is accepted rule by rule; they are not derived from a coroutine-level model. Own output/exit code "
+    "and undeploy exactness are additionally judged by the oracle on the real runs.")
+PROP.LEVEL_NOTE = (
+    "Trusted: Coq kernel + vm_compute; the hand-written rules; the assumption that squeue -j lists exactly the asked ids "
+    "still queued, ids are never reused and departed jobs do not return; cachebox, asyncio.Lock; instrumentation by "
+    "subclassing dict/TTLCache; polling sleeps replaced by sleep(0) and TTL expiry by an explicit event. Slurm state "
+    "names and scontrol parsing are exercised, not proved; PBS and Flux connectors are not exercised. No axioms.")
